@@ -16,6 +16,9 @@ for cfg in facts.CONFIGS:
             d = facts.load(crate, cfg)
         except Exception as e:  # a configuration that does not contain the crate
             continue
-        out.setdefault(crate, set()).update(norm_path(n) for n in d["fns"])
-json.dump({c: sorted(v) for c, v in sorted(out.items())}, open(KNOWN_FILE, "w"), indent=0)
+        for n, fj in d["fns"].items():
+            # the parameter names (with their types) are part of the vocabulary: rules say `now`, `telegram`, `sa`, `da`, `value`
+            params = [[fj["locals"][i].get("name"), fj["locals"][i]["ty"]] for i in range(1, fj["argc"] + 1)] if fj.get("locals") else []
+            out.setdefault(crate, {}).setdefault(norm_path(n), params)
+json.dump({c: {k: v[k] for k in sorted(v)} for c, v in sorted(out.items())}, open(KNOWN_FILE, "w"), indent=0)
 print({c: len(v) for c, v in out.items()})
